@@ -476,6 +476,8 @@ class FunctionReference:
         version = parts["version"]
 
         if not external:
+            from .exception import DependencyNotFoundError
+
             try:
                 memento_fn = FunctionReference._find_function(
                     module=module,
@@ -491,8 +493,15 @@ class FunctionReference:
                     partial_args=partial_args,
                     partial_kwargs=partial_kwargs,
                 )
-            except (ModuleNotFoundError, ValueError, AttributeError):
-                # Cannot find module or function. Treat as an external function reference.
+            except (
+                ModuleNotFoundError,
+                ValueError,
+                AttributeError,
+                DependencyNotFoundError,
+            ):
+                # Cannot find module or function, or its version cannot be computed any more
+                # because one of its required dependencies is gone. Treat as an external
+                # function reference.
                 external = True
 
         if external:
